@@ -99,7 +99,7 @@ impl Cx {
         if let Some(o) = detail.as_object_mut() {
             o.insert(
                 "menu".to_string(),
-                json!({"docs": sc.menu.docs, "infos": sc.menu.infos, "replicas": sc.nrep}),
+                json!({"docs": sc.menu.docs, "infos": sc.menu.infos, "replicas": sc.nrep, "hash_order_reversed": sc.order.is_some(), "track": sc.track}),
             );
         }
         self.violations.push(Violation {
